@@ -186,6 +186,12 @@ def sweep_cases():
     return sorted(set(out))
 
 
+BIG_FOLDS = [
+    "94906267 * 94906267 + x", "3^34", "3^40 - 1", "7^20 * x", "99999999 * 99999999", "123456789 * 987654321", "x + 3^35 * 2", "(3^34)x", "y = 5^25 + x",
+    "9007199254 * 1000001", "2^53 + 1", "(2^53 + 1) * x", "x^(3^34)", "-(3^34)", "6^21 / x", "0.5 * 3^34", "10^22 + 1", "10^23", "x - 11^16",
+]
+
+
 def check_sweep_string(ctx, case):
     T = E.parse(case["text"])
     if T is None:
@@ -215,7 +221,9 @@ def check_tree(ctx, case):
             except Exception:
                 continue
             ap = E.apply(rule, n)
-            if ap.error is not None or ap.result_root is None or A.audit(ap.result_root) is not None or E.has_huge_constant(ap.result_root):
+            # (a result is only printed and re-read, never searched by the rules again: constants beyond 10^10 are fine here;
+            # constants too long to print are excluded inside check_tree_obj)
+            if ap.error is not None or ap.result_root is None or A.audit(ap.result_root) is not None:
                 ctx.count("skipped:bad-application(C06/C07)")
                 continue
             ctx.count(f"applied:{name}:{ap.arrangement}")
@@ -286,6 +294,12 @@ def run(ctx):
     ctx.info["sweep_exhaustive_within"] = "depth-2 nestings over 8x5x5 leaf kinds, negation nestings, depth-3 operator nestings"
     # rule outputs from the deterministic template corners: every rule template x coefficient coincidence, and every text
     # one edit away from a template, parsed, every applicable rule applied at every node, each result printed and re-read
+    # folds that produce integers no double can hold (the printed digits must all be read back)
+    for i, t in enumerate(BIG_FOLDS):
+        if i % ctx.nshards == ctx.shard:
+            ctx.count("evaluations")
+            ctx.count("big-fold:cases")
+            check_tree(ctx, {"text": t, "pre": []})
     texts = G.sweep_texts() + G.neighbour_texts()
     step = 4 if ctx.tier == "quick" else 1
     for i, t in enumerate(texts):
